@@ -33,12 +33,24 @@ Fixpoint probe_ok (cur : dmap) (ds : list nat) (vs : list value) : bool :=
   | _, _ => true
   end.
 
+(* One observed step.  A commit that the real node refused is always acceptable (the store may detect conflicts
+   conservatively, e.g. through keys touched by an iterator): the model then aborts that transaction, whatever its
+   own conflict rule says, and the observations that follow must match this outcome (no effect of the refused
+   transaction).  A commit the real node accepted must be one the model accepts: otherwise an update was lost. *)
+Definition step_obs (s : mv) (o : top) : mv * bool :=
+  match o with
+  | TCommit t false =>
+      let x := gettx s t in
+      (settx s t (mkTx (t_snap x) (t_start x) (t_reads x) (t_writes x) false), true)
+  | _ => let '(s', p) := mstep s o in (s', pred_eqb p (observed o))
+  end.
+
 Fixpoint run_case (s : mv) (ds : list nat) (l : list (top * list value)) (i : Z) : option Z :=
   match l with
   | [] => None
   | (o, probe) :: r =>
-      let '(s', p) := mstep s o in
-      if pred_eqb p (observed o) && probe_ok (m_cur s') ds probe then run_case s' ds r (i + 1)%Z else Some i
+      let '(s', ok) := step_obs s o in
+      if ok && probe_ok (m_cur s') ds probe then run_case s' ds r (i + 1)%Z else Some i
   end.
 
 Definition init_docs (n : nat) : dmap := map (fun d => (d, Some (Z.of_nat d))) (seq 0 n).
